@@ -1,11 +1,12 @@
 import Litep2pVerif.Proofs.Kad.Coordinator
 import Litep2pVerif.Proofs.Kad.CoordinatorOwned
+import Litep2pVerif.Proofs.Kad.CoordinatorQuorum
 import Litep2pVerif.Generated.Consts
 /-!
 # C16 — Every Kademlia operation started by the user ends with one terminal event
 
 Property theorems only (model: `Model/Kad/Coordinator.lean`, lemmas: `Proofs/Kad/Coordinator.lean`,
-`Proofs/Kad/CoordinatorOwned.lean`).
+`Proofs/Kad/CoordinatorOwned.lean`, `Proofs/Kad/CoordinatorQuorum.lean`).
 The model is that of the repaired tree (four `fix:` commits: the unreachable peers of the
 PUT_VALUE/ADD_PROVIDER fan-out are failed after tracking starts; `on_connection_established` fails
 every kind of action whose substream cannot be opened and tracks the substreams it opens; an
@@ -161,13 +162,19 @@ example :
 Every success of the send phase recorded in any reachable state (a `SuccessRec` is logged exactly when
 a tracker emits its success event) counted at least `clampQuorum quorum nTargets` *distinct* peers,
 and every counted peer had an executor result of a success kind (`SendSuccess`, `AssumeSendSuccess` or
-`ReadSuccess`) for this query and peer, handled while the tracker was waiting for that peer.
-(The recorded future kind `k` is that of the PUT_VALUE/ADD_PROVIDER future unless a lookup-phase
-request to a fan-out target was still in flight when the lookup finished, which `engineStep` excludes
-only at the moment of the fan-out — the engine contract "found peers have answered", C15.) -/
+`ReadSuccess`) of a **PUT_VALUE / ADD_PROVIDER future** (`k ≠ reqResp`: futures are tagged with their
+message kind) for this query and peer, handled while the tracker was waiting for that peer.
+
+The query id is the same in the lookup phase and in the send phase, and the coordinator reports the
+`ReadSuccess` of a lookup-phase FIND_NODE/GET_VALUE request as a send success too; that such a result can
+never be counted by the tracker rests on two invariants proved for every schedule
+(`Proofs/Kad/CoordinatorQuorum.lean`): during the lookup phase the coordinator holds at most one record (pending
+dial action, pending substream action, executor future) per query and peer and none for a peer the lookup
+is not waiting for; hence — the engine only hands out fan-out targets the lookup is not waiting for — no
+request/response future of the query is in flight for a peer its tracker waits for. -/
 theorem put_quorum_sound (s : State) (h : Reachable s) (r : SuccessRec) (hr : r ∈ s.successLog) :
     clampQuorum r.quorum r.nTargets ≤ r.counted.length ∧ r.counted.Nodup ∧
-    ∀ p ∈ r.counted, ∃ k, (r.q, p, k) ∈ s.sendResults :=
+    ∀ p ∈ r.counted, ∃ k, k ≠ .reqResp ∧ (r.q, p, k) ∈ s.sendResults :=
   (QuorumInv.reachable h).log r hr
 
 /-- Non-vacuity: a put to two given peers with quorum N(2): both are dialed, sent the record (one answers,
@@ -180,6 +187,18 @@ example :
     s.events = [(0, true)] ∧ (s.successLog.map (·.counted)) = [[2, 1]] ∧
       s.sendResults = [(0, 2, .putEat), (0, 1, .putEat)] := by
   decide
+
+/-- Non-vacuity (the case the `k ≠ reqResp` clause is about): a `put_record` whose lookup still has a FIND_NODE
+request to peer 3 in flight when it ends with target 1; the late `ReadSuccess` of that request is reported as a
+send success of query 0 but is not counted, the success rests on the PUT_VALUE future of peer 1. -/
+example :
+    let s := run {} [.cmd (.putRecord 1 .one), .established 3 [], .engine (.send 0 3) [⟨true, .err, false⟩],
+      .subOpened 0, .engine (.lookupDone 0 true [1]) [⟨false, .started, false⟩],
+      .result ⟨3, 0, .reqResp⟩ .readOk, .established 1 [true], .subOpened 1,
+      .result ⟨1, 0, .putEat⟩ .readOk, .engine (.trackerDone 0) []]
+    Reachable s ∧ s.events = [(0, true)] ∧ (s.successLog.map (·.counted)) = [[1]] ∧
+      s.sendResults = [(0, 1, .putEat), (0, 3, .reqResp)] :=
+  ⟨reachable_run .init _, by decide⟩
 
 /-- **The clamping rule, as coded.** `One ⇒ 1`, `N(n) ⇒ min(n, max(len, 1))`, `All ⇒ max(len, 1)`
 with `len` the number of fan-out targets: the required number of successes never exceeds the requested
